@@ -36,7 +36,7 @@ $(BUILD)/lib-$(1)/libdjinterop.a: lib-$(1)
 
 $(BUILD)/obj-$(1)/%.o: src/%.cpp | lib-$(1)
 	@mkdir -p $$(dir $$@)
-	$(CXX) -std=c++17 $(2) -Wall -Wno-unused-function -Wno-sign-compare -MMD -MP $(call INCS,$(1)) -c $$< -o $$@
+	$(CXX) -std=c++17 $(2) -Wall -Wno-unused-function -Wno-sign-compare -Wno-mismatched-new-delete -MMD -MP $(call INCS,$(1)) -c $$< -o $$@
 
 $(BUILD)/vx-$(1): $(patsubst src/%.cpp,$(BUILD)/obj-$(1)/%.o,$(HSRC)) $(BUILD)/lib-$(1)/libdjinterop.a
 	$(CXX) $(2) -o $$@ $(patsubst src/%.cpp,$(BUILD)/obj-$(1)/%.o,$(HSRC)) $(BUILD)/lib-$(1)/libdjinterop.a -rdynamic -lsqlite3 -lz -ldl -lpthread
